@@ -179,3 +179,35 @@ func TestSyncStallIsInjected(t *testing.T) {
 		t.Fatalf("stalls=%d vnow=%d stop=%d", w.St.SyncStalls, w.Vnow, w.Stop)
 	}
 }
+
+func TestTickerAndTimer(t *testing.T) {
+	var ticks []int64
+	var fired int64
+	w := runWorld(3, Config{Policy: Fair, Quantum: 10}, func() {
+		tk := NewTicker(10 * time.Millisecond)
+		defer tk.Stop()
+		for i := 0; i < 5; i++ {
+			Recv(tk.C)
+			ticks = append(ticks, VNow())
+			if i == 1 {
+				Sleep(25 * time.Millisecond) // a slow receiver: one tick is buffered, later ones are dropped
+			}
+		}
+		tm := NewTimer(time.Second)
+		Recv(tm.C)
+		fired = VNow()
+	})
+	if w.Stop != StopNone || len(ticks) != 5 {
+		t.Fatalf("stop=%d ticks=%v", w.Stop, ticks)
+	}
+	ms := int64(time.Millisecond)
+	want := []int64{10 * ms, 20 * ms, 45 * ms, 50 * ms, 60 * ms}
+	for i := range want {
+		if ticks[i] < want[i] || ticks[i] > want[i]+ms {
+			t.Fatalf("tick %d at %d, want about %d (%v)", i, ticks[i], want[i], ticks)
+		}
+	}
+	if fired < ticks[4]+int64(time.Second) || fired > ticks[4]+int64(time.Second)+ms {
+		t.Fatalf("timer fired at %d", fired)
+	}
+}
